@@ -3,6 +3,7 @@
 From Coq Require Import ZArith List Field Ring Lia Bool Arith.
 From BL Require Import Base.Ops Base.Laws Model.Solver Proofs.Sums Proofs.StepProofs.
 Import ListNotations.
+Set Default Proof Using "All".
 
 Section Mode.
 Variable O : Ops.
@@ -37,8 +38,8 @@ Lemma mode_levels_q_length a g tx ty qh :
 Proof.
   unfold mode_levels_q. destruct (a_analytic O a).
   - rewrite map_length. reflexivity.
-  - pose proof (ivp_spec O (m_lx g tx) (m_ly g ty) (m_layers a) (a_levels O a) (1, 0)) as H1.
-    pose proof (ivp_spec O (m_lx g tx) (m_ly g ty) (m_layers a) (a_levels O a) (0, qh)) as H2.
+  - pose proof (ivp_spec O L (m_lx g tx) (m_ly g ty) (m_layers a) (a_levels O a) (1, 0)) as H1.
+    pose proof (ivp_spec O L (m_lx g tx) (m_ly g ty) (m_layers a) (a_levels O a) (0, qh)) as H2.
     unfold m_lx, m_ly, m_layers in H1, H2.
     destruct (ivp O _ _ _ (a_levels O a) (1, 0)) as [[st1 rp1] rq1].
     destruct (ivp O _ _ _ (a_levels O a) (0, qh)) as [[st2 rp2] rq2].
@@ -57,8 +58,8 @@ Lemma mode_levels_q_num a g tx ty qh k :
     (rho O a (fst s), rho O a (snd s)).
 Proof.
   intros Han Hk Hle. unfold mode_levels_q. rewrite Han.
-  pose proof (ivp_spec O (m_lx g tx) (m_ly g ty) (m_layers a) (a_levels O a) (1, 0)) as H1.
-  pose proof (ivp_spec O (m_lx g tx) (m_ly g ty) (m_layers a) (a_levels O a) (0, qh)) as H2.
+  pose proof (ivp_spec O L (m_lx g tx) (m_ly g ty) (m_layers a) (a_levels O a) (1, 0)) as H1.
+  pose proof (ivp_spec O L (m_lx g tx) (m_ly g ty) (m_layers a) (a_levels O a) (0, qh)) as H2.
   unfold m_alpha, m_KzN, m_eig, m_lx, m_ly, m_layers in *.
   destruct (ivp O _ _ _ (a_levels O a) (1, 0)) as [[st1 rp1] rq1].
   destruct (ivp O _ _ _ (a_levels O a) (0, qh)) as [[st2 rp2] rq2].
@@ -109,7 +110,7 @@ Lemma mean_loop_spec q00 levels : forall dzs Kzs i p00 rec,
                    then nth (l - i) (mean_traj q00 dzs Kzs p00) d else nth k rec d.
 Proof.
   induction dzs as [|dz dzs IH]; intros Kzs i p00 rec Hl.
-  - cbn [mean_loop mean_traj snd length]. split; [apply record_length; exact Hl|].
+  - cbn [mean_loop mean_traj snd length]. split; [apply (record_length O L); exact Hl|].
     intros k d Hk. cbv zeta. rewrite record_nth by assumption.
     set (l := nth k levels 0%nat).
     destruct (Nat.eqb l i) eqn:E.
@@ -121,7 +122,7 @@ Proof.
       symmetry. apply andb_false_iff.
       destruct (Nat.lt_ge_cases l i); [left; apply Nat.leb_gt; lia|right; apply Nat.ltb_ge; lia].
   - destruct Kzs as [|Kz0 [|Kz1 Kzs]].
-    + cbn [mean_loop mean_traj snd length]. split; [apply record_length; exact Hl|].
+    + cbn [mean_loop mean_traj snd length]. split; [apply (record_length O L); exact Hl|].
       intros k d Hk. cbv zeta. rewrite record_nth by assumption.
       set (l := nth k levels 0%nat).
       destruct (Nat.eqb l i) eqn:E.
@@ -132,7 +133,7 @@ Proof.
         replace ((i <=? l)%nat && (l <? i + 1)%nat) with false; [reflexivity|].
         symmetry. apply andb_false_iff.
         destruct (Nat.lt_ge_cases l i); [left; apply Nat.leb_gt; lia|right; apply Nat.ltb_ge; lia].
-    + cbn [mean_loop mean_traj snd length]. split; [apply record_length; exact Hl|].
+    + cbn [mean_loop mean_traj snd length]. split; [apply (record_length O L); exact Hl|].
       intros k d Hk. cbv zeta. rewrite record_nth by assumption.
       set (l := nth k levels 0%nat).
       destruct (Nat.eqb l i) eqn:E.
@@ -208,7 +209,7 @@ Lemma mean_levels_q_length a g q00 p000 :
 Proof.
   unfold mean_levels_q. destruct (a_analytic O a); [rewrite map_length; reflexivity|].
   pose proof (mean_loop_spec q00 (a_levels O a) (diffs O (a_z O a)) (p_Kz O (a_prof O a)) 0%nat p000
-                (zeros O (length (a_levels O a))) (zeros_length O _)) as H.
+                (zeros O (length (a_levels O a))) (zeros_length O L _)) as H.
   cbv zeta in H. destruct (mean_loop O q00 _ _ 0%nat (a_levels O a) p000 _) as [pf rec].
   cbn [snd] in H. rewrite map_length. apply H.
 Qed.
@@ -224,7 +225,7 @@ Lemma mean_levels_q_num a g q00 p000 k :
 Proof.
   intros Han Hk Hle. unfold mean_levels_q. rewrite Han.
   pose proof (mean_loop_spec q00 (a_levels O a) (diffs O (a_z O a)) (p_Kz O (a_prof O a)) 0%nat p000
-                (zeros O (length (a_levels O a))) (zeros_length O _)) as H.
+                (zeros O (length (a_levels O a))) (zeros_length O L _)) as H.
   cbv zeta in H. destruct (mean_loop O q00 _ _ 0%nat (a_levels O a) p000 _) as [pf rec].
   cbn [snd] in H. destruct H as [Hl Hn].
   set (f := fun p : C => (rho O a p, rho O a q00)).
